@@ -27,7 +27,8 @@ S = Suite(
           "closures and a formula profile, scalar and list levels, numerical and analytic mode, "
           "random / sparse / smooth / sign-changing / zero / exactly-zero-mean (dipole, "
           "balanced integers) sources, seeded random coefficients "
-          "in [-3, 3] incl. negative and zero, backgrounds in [-2, 5], meas_pt on/off grid",
+          "in [-3, 3] incl. negative and zero, backgrounds in [-2, 5] and integer-TYPED backgrounds 400 / -3 / 1, "
+          "integer-typed count fields as source, meas_pt on/off grid",
     rule="superposition to 1e-9 * max(1, e^(G-8)) of (|a| max|out1| + |b| max|out2|), G = "
          "shooting growth max sum Re(lambda)dz (rounding of the numerical mode); background offset to 1e-9 "
          "of (|bg| + max|conc - bg|); flux under a background change and footprint under a "
@@ -59,7 +60,8 @@ def _solve(q0, z, prof, domain, levels, **kw):
     prof = tuple(np.ascontiguousarray(a, dtype=float) for a in prof)
     try:
         _, conc, flx = steady_state_transport_solver(
-            np.array(q0, dtype=float), np.ascontiguousarray(z, dtype=float), prof, domain, lv,
+            (np.array(q0) if np.asarray(q0).dtype.kind in "iu" else np.array(q0, dtype=float)),   # integer count fields stay integer-typed
+            np.ascontiguousarray(z, dtype=float), prof, domain, lv,
             precision="double", **kw)
     except Exception as e:
         raise SolverCrash("%s: %s" % (type(e).__name__, e))
@@ -112,6 +114,8 @@ def make_source(kind, ny, nx, rng):
         return q
     if kind == "huge":
         return 1e6 * rng.standard_normal((ny, nx))
+    if kind == "counts":          # an integer-TYPED field (animal counts, class map): "any surface-flux field"
+        return rng.integers(0, 6, (ny, nx))
     raise ValueError(kind)
 
 
@@ -364,6 +368,10 @@ def generate(tier, rng):
                         base, footprint=False, src1=SRC[(c + 1) % 6], src2=ZERO_MEAN[(c + 1) % 3],
                         a=(1.0, _coef(rng))[c % 2], b=(1.0, _coef(rng))[c % 2], c1=0.0,
                         c2=round(rng.uniform(0.5, 5), 3), seed=rng.randrange(10 ** 6))
+                    # integer-typed background value and source field (YAML `srf_bg_conc: 400`, a count map)
+                    yield "background", dict(
+                        base, footprint=bool(c % 2), src=("counts", SRC[c % 6])[c % 2], bg=(400, -3, 1)[c % 3],
+                        seed=rng.randrange(10 ** 6))
                     if thorough or c % 3 == 0:
                         yield "superposition", dict(
                             base, footprint=True, src1=SRC[(c + 3) % 6], src2=SRC[(c + 4) % 6],
